@@ -369,7 +369,18 @@ static void buf_protect(uint8_t *raw, size_t n, bool ro) { if (g_pages) mprotect
 static uint64_t g_dirty_pat = ~0ULL;
 // (errno is the caller's as well: a stale value - a function of the operation index - must not influence a library call)
 static int g_stale_errno = 0;
-#define DIRTY() do { errno = g_stale_errno; dirty_stack(g_dirty_pat); } while (0)
+// While library code runs, the guard bytes around the allocation in hand are poisoned for the address sanitizer: reading them is as
+// much a trespass as writing them (a getter that fetches a quadlet beyond the header faults when the header ends where memory ends)
+extern "C" void __asan_poison_memory_region(void const volatile *addr, size_t size) __attribute__((weak));
+extern "C" void __asan_unpoison_memory_region(void const volatile *addr, size_t size) __attribute__((weak));
+static void guards_poison(const Alloc &a, bool on) {
+    auto fn = on ? __asan_poison_memory_region : __asan_unpoison_memory_region;
+    if (!fn || !a.mem || a.size < 2 * kGuard) return;
+    fn(a.mem, kGuard);
+    fn(a.mem + a.size - kGuard, kGuard);
+}
+static const Alloc *g_cur_alloc = nullptr;  // the allocation the operation in hand works on
+#define DIRTY() do { errno = g_stale_errno; if (g_cur_alloc) guards_poison(*g_cur_alloc, true); dirty_stack(g_dirty_pat); } while (0)
 
 static void fill_garbage(uint8_t *p, size_t n, Rng &r) {
     for (size_t i = 0; i < n; i++) p[i] = (uint8_t)r.next();
@@ -469,7 +480,10 @@ static void exec(const std::string &text, bool verbose) {
         if (b.parent >= 0) pr_sub++;
         std::string what = kv.kv.empty() ? "" : kv.kv[1].first;  // kv[0] is b=
         g_inc = (int)(kv.u64("inc", 0) % 3);
+        for (auto &al : allocs) guards_poison(al, false);
+        g_cur_alloc = &a;
         auto check_bytes = [&](const std::string &sigtail, const std::string &ctx) {
+            guards_poison(a, false);
             if (bind_multi_eval || S_bind_multi_eval)
                 violation("eval:" + sigtail, ctx + ": the accessor evaluated an argument expression more than once (it is a function-like macro that mentions its parameter "
                                                     "twice); with an argument like next(&cursor) it reads one message and writes another");
